@@ -56,8 +56,8 @@ LEVEL_TEXT = (
 )
 LEVEL_NOTE = "Trusted: harness event log order (single thread, one loop), subtree definition above, VirtualLoop/virtual clock, gate scheduler."
 
-CAP = {"quick": (40, 15), "thorough": (1500, 300)}
-SAMPLE = {"quick": 100, "thorough": 8000}
+CAP = {"quick": (40, 15), "thorough": (400, 100)}
+SAMPLE = {"quick": 100, "thorough": 2000}
 
 
 def trees(n: int):  # noqa: ANN201
